@@ -4,6 +4,9 @@ import (
 	"encoding/json"
 	"fmt"
 	"os"
+	"runtime"
+	"syscall"
+	"time"
 )
 
 type checkFn func(e *Env, r *Report)
@@ -22,6 +25,7 @@ func main() {
 	if os.Args[1] == "dbg" {
 		os.Exit(debugMain(os.Args[2:]))
 	}
+	raiseFdLimit()
 	id, tier := os.Args[1], os.Args[2]
 	if tier != "quick" && tier != "thorough" {
 		usage()
@@ -86,4 +90,35 @@ func main() {
 		code = r.Finish()
 	}()
 	os.Exit(code)
+}
+
+// fdBudget: how many files the code under test may leave open before the harness asks the runtime to collect
+// them (pkg/logs opens its input and leaves closing to the finaliser; a thorough tier reads 100 000 files).
+var fdBudget = 256
+
+func raiseFdLimit() {
+	var rl syscall.Rlimit
+	if syscall.Getrlimit(syscall.RLIMIT_NOFILE, &rl) != nil {
+		return
+	}
+	if rl.Cur < rl.Max {
+		rl.Cur = rl.Max
+		_ = syscall.Setrlimit(syscall.RLIMIT_NOFILE, &rl)
+		_ = syscall.Getrlimit(syscall.RLIMIT_NOFILE, &rl)
+	}
+	if b := int(rl.Cur / 4); b > fdBudget {
+		fdBudget = min(b, 8192)
+	}
+}
+
+var leakedFds int
+
+// noteLeakedFd is called after each use of an API of the code under test that leaves a file open.
+func noteLeakedFd() {
+	leakedFds++
+	if leakedFds >= fdBudget {
+		leakedFds = 0
+		runtime.GC()
+		time.Sleep(20 * time.Millisecond) // finalisers run in their own goroutine
+	}
 }
